@@ -60,6 +60,7 @@ func (c05) Gen(tier string, seed int64) []fw.Unit {
 	}
 	us = append(us, fw.U("c128.alternate", nil, "alternations", 0))
 	us = append(us, fw.U("c128.decorated", nil, "decorated", 0))
+	us = append(us, fw.U("c128.foreign", nil, "foreign-digits", 0))
 	us = append(us, fw.U("c128.collide", nil, "hash-collision-pairs", 0))
 	us = append(us, fw.U("c128.digitruns", nil, "digit-runs", 0))
 	us = append(us, fw.U("c128.digitruns", nil, "digit-runs", 1))
@@ -219,6 +220,11 @@ func (p c05) Exec(c *fw.Ctx, u *fw.Unit) {
 					}
 				}
 			}
+		}
+	case "c128.foreign":
+		for _, fd := range foreignDigitStrings() {
+			c128Check(c, fd, false)
+			c128Check(c, fd, true)
 		}
 	case "c128.decorated":
 		for _, base := range []string{"Code128", "12345678", "a1"} {
